@@ -285,6 +285,24 @@ func genHostile(rt *rapid.T) (string, []string) {
 		text += "\nSELECT " + strings.Repeat("col_a, ", rapid.IntRange(12, 16).Draw(rt, "ncols")) + "b FROM t1"
 		cl["long_line"] = true
 	}
+	if rapid.IntRange(0, 9).Draw(rt, "commentline") == 0 {
+		// long lines that begin with a comment: only comments (exempt from the length rule) or a comment and then SQL
+		body := strings.Repeat("note ", rapid.IntRange(19, 24).Draw(rt, "cmtlen"))
+		switch rapid.IntRange(0, 4).Draw(rt, "commentline_kind") {
+		case 0:
+			text += "\n-- " + body
+		case 1:
+			text += "\n  /* " + body + "*/"
+		case 2:
+			text += "\n/* a */ /* " + body + "*/ -- tail"
+		case 3:
+			text += "\n/* it's */ SELECT " + strings.Repeat("col_a, ", 14) + "b FROM t1"
+		default:
+			text += "\n/* a */ /* b */ select " + strings.Repeat("col_a , ", 13) + "b from t1 -- tail"
+		}
+		cl["long_line_beginning_with_comment"] = true
+		cl["comment_with_quote_or_keyword"] = true
+	}
 	if rapid.IntRange(0, 9).Draw(rt, "boundaryline") == 0 {
 		// lines whose length is within one of the limit, in characters: CRLF endings and non-ASCII text must not matter
 		n := maxLen + rapid.IntRange(-1, 1).Draw(rt, "boundarydelta")
@@ -360,6 +378,28 @@ func oracleExact(c ExactCase) error {
 	// does line i start inside a protected element (the newline before it is protected)?
 	startsInside := func(i int) bool { return i > 0 && prot(offs[i]-1) }
 
+	// commentOnly: the first visible character of line i opens a comment, and no token other than comments
+	// has a byte on the line
+	commentOnly := func(i int) bool {
+		lo, hi := offs[i], offs[i]+len(lines[i])
+		fb := lo
+		for fb < hi && (c.Text[fb] == ' ' || c.Text[fb] == '\t' || c.Text[fb] == '\r') {
+			fb++
+		}
+		opens := false
+		for _, t := range toks {
+			if t.End <= lo || t.Off >= hi {
+				continue
+			}
+			if t.Kind != lexgen.KComment {
+				return false
+			}
+			if t.Off == fb {
+				opens = true
+			}
+		}
+		return opens
+	}
 	want := map[string]map[lineCol]bool{"L001": {}, "L003": {}, "L005": {}, "L010": {}, "L007": {}}
 	skipLong := map[int]bool{}
 	run := 0
@@ -395,8 +435,9 @@ func oracleExact(c ExactCase) error {
 		} else {
 			flush()
 		}
-		// L005: longer than the maximum, in characters, the CR of a CRLF ending not counted
-		if utf8.RuneCountInString(strings.TrimSuffix(l, "\r")) > maxLen {
+		// L005: longer than the maximum, in characters, the CR of a CRLF ending not counted; a line that holds
+		// nothing but comments which begin on it is exempt (the rule's stated intent: comment-only lines)
+		if utf8.RuneCountInString(strings.TrimSuffix(l, "\r")) > maxLen && !commentOnly(i) {
 			want["L005"][lineCol{i + 1, 0}] = true
 		}
 		// L010: two or more consecutive spaces in code, after the indentation
